@@ -28,10 +28,14 @@ type simHook struct {
 //go:norace
 func (h *simHook) Lock(m unsafe.Pointer, name string, try func() bool) {
 	if !h.s.Active() {
-		for !try() {
-			// only reachable if a lock is taken outside a run while an abandoned
-			// (deadlocked) task of an earlier run still holds it: a new root is
-			// built for every run, so this does not happen.
+		// outside a run (set-up of a run: sequential, nothing else executes
+		// library code): a lock that is not free can only be held by the caller
+		// itself, which would block forever
+		for i := 0; !try(); i++ {
+			if i > 2000000 {
+				panic("deadlock outside a scheduled run: the caller waits for the lock " + name + " which is held although no other goroutine runs library code (it holds the lock itself)")
+			}
+			runtime.Gosched()
 		}
 		return
 	}
@@ -80,7 +84,11 @@ func (h *simHook) TryLock(m unsafe.Pointer, name string, shared bool, try func()
 //go:norace
 func (h *simHook) RLock(m unsafe.Pointer, name string, try func() bool) {
 	if !h.s.Active() {
-		for !try() {
+		for i := 0; !try(); i++ {
+			if i > 2000000 {
+				panic("deadlock outside a scheduled run: the caller waits for a read lock on " + name + " which is write-held although no other goroutine runs library code")
+			}
+			runtime.Gosched()
 		}
 		return
 	}
@@ -239,6 +247,25 @@ func parseRaces(text string) []raceReport {
 
 // runScheduled installs the hook, runs the scheduler with the GC off (address
 // identity for the vector-clock check) and returns the race reports of the run.
+// sequentialSetup runs library calls that a check makes before the scheduled
+// part of a run, with the hook installed (scheduler not active): a lock that the
+// caller already holds is then reported instead of blocking the process.
+func sequentialSetup(s *sched.Sched, f func()) (deadlock string) {
+	ggql.VerifSimHook = &simHook{s: s}
+	defer func() {
+		ggql.VerifSimHook = nil
+		if r := recover(); r != nil {
+			if msg := fmt.Sprint(r); strings.HasPrefix(msg, "deadlock outside a scheduled run") {
+				deadlock = msg
+				return
+			}
+			panic(r)
+		}
+	}()
+	f()
+	return ""
+}
+
 func runScheduled(s *sched.Sched) []raceReport {
 	before := sched.RaceErrors()
 	rl := getRaceLog()
